@@ -100,7 +100,8 @@ func driveVerify(c *ctx) {
 			secec.EncodingCompact:            secec.BuildCompactSignature(rs, ss),
 			secec.EncodingCompactRecoverable: secec.BuildCompactRecoverableSignature(rs, ss, v),
 		}
-		for _, e := range []secec.SignatureEncoding{secec.EncodingASN1, secec.EncodingCompact, secec.EncodingCompactRecoverable, secec.SignatureEncoding(7)} {
+		for _, e := range []secec.SignatureEncoding{secec.EncodingASN1, secec.EncodingCompact, secec.EncodingCompactRecoverable, secec.SignatureEncoding(7),
+			secec.SignatureEncoding(-1), secec.SignatureEncoding(3)} {
 			sig := sigs[e]
 			if sig == nil {
 				sig = sigs[secec.EncodingASN1]
@@ -164,8 +165,10 @@ func driveVerify(c *ctx) {
 			enc(pub, digest[:32], secec.BuildASN1Signature(r, s), &secec.ECDSAOptions{Hash: crypto.SHA512})
 		}
 		// deep: private-key verification path
-		c.E("vfy.Alt", "d", h32(d), "digest", hx(digest), "r", h32(rb), "s", h32(sb), "out", secec.VerifVerifyAlt(priv, digest, r, s))
-		c.E("vfy.Alt", "d", h32(d), "digest", hx(digest), "r", h32(rb), "s", h32(add(sb, 1)), "out", secec.VerifVerifyAlt(priv, digest, r, scFrom(new(big.Int).Mod(add(sb, 1), bigN))))
+		if deep {
+			c.E("vfy.Alt", "d", h32(d), "digest", hx(digest), "r", h32(rb), "s", h32(sb), "out", deepVerifyAlt(priv, digest, r, s))
+			c.E("vfy.Alt", "d", h32(d), "digest", hx(digest), "r", h32(rb), "s", h32(add(sb, 1)), "out", deepVerifyAlt(priv, digest, r, scFrom(new(big.Int).Mod(add(sb, 1), bigN))))
+		}
 		// one-bit flips
 		for k := 0; k < 4; k++ {
 			fr := new(big.Int).Xor(rb, pow2(uint(rng.Intn(255))))
@@ -233,7 +236,9 @@ func driveVerify(c *ctx) {
 		s := add(randBig(rng, add(bigN, -1)), 1)
 		e := new(big.Int).Mod(new(big.Int).Neg(new(big.Int).Mul(r, d)), bigN)
 		raw(privFrom(d).PublicKey(), be32(e)[:], r, s)
-		c.E("vfy.Alt", "d", h32(d), "digest", h32(e), "r", h32(r), "s", h32(s), "out", secec.VerifVerifyAlt(privFrom(d), be32(e)[:], scFrom(r), scFrom(s)))
+		if deep {
+			c.E("vfy.Alt", "d", h32(d), "digest", h32(e), "r", h32(r), "s", h32(s), "out", deepVerifyAlt(privFrom(d), be32(e)[:], scFrom(r), scFrom(s)))
+		}
 	}
 	// constructed: chosen R with e = 0 and digest >= n
 	for i := 0; i < c.scale(6, 60); i++ {
@@ -281,6 +286,110 @@ func driveVerify(c *ctx) {
 			pub := privFrom(d).PublicKey()
 			raw(pub, be32(e)[:], r, sv)
 			enc(pub, be32(e)[:], secec.BuildCompactSignature(scFrom(r), scFrom(sv)), &secec.ECDSAOptions{Encoding: secec.EncodingCompact})
+		}
+	}
+	// the Bitcoin entry point: envelopes that ARE valid BIP-66 but whose INTEGERs are not scalars — 33 bytes with a leading
+	// 0x01..0x7f (a value >= 2^256 whose low 32 bytes are the genuine r or s), 33 bytes 0x00 || value >= n, and the genuine
+	// signature for comparison
+	for i := 0; i < c.scale(4, 40); i++ {
+		priv := privFrom(add(randBig(rng, add(bigN, -1)), 1))
+		digest := randBytes(rng, 32)
+		r, sv, _, err := priv.SignRaw(&fixedReader{randBytes(rng, 32)}, digest)
+		if err != nil {
+			panic(err)
+		}
+		minInt := func(b []byte) []byte { // minimal positive DER INTEGER body
+			for len(b) > 1 && b[0] == 0 {
+				b = b[1:]
+			}
+			if b[0]&0x80 != 0 {
+				b = append([]byte{0}, b...)
+			}
+			return b
+		}
+		env := func(R, S []byte) []byte {
+			body := append(append([]byte{2, byte(len(R))}, R...), append([]byte{2, byte(len(S))}, S...)...)
+			return append(append([]byte{0x30, byte(len(body))}, body...), 0x01)
+		}
+		rb, sb := r.Bytes(), sv.Bytes()
+		btc(priv.PublicKey(), digest, env(minInt(rb), minInt(sb)))
+		for _, lead := range []byte{0x01, 0x7f, 0x40} {
+			btc(priv.PublicKey(), digest, env(append([]byte{lead}, rb...), minInt(sb)))
+			btc(priv.PublicKey(), digest, env(minInt(rb), append([]byte{lead}, sb...)))
+		}
+		if rn := new(big.Int).Add(new(big.Int).SetBytes(rb), bigN); rn.BitLen() <= 256 { // r + n when it fits: same residue, not a scalar
+			btc(priv.PublicKey(), digest, env(minInt(be32(rn)[:]), minInt(sb)))
+		}
+	}
+	// constructed: VALID signatures with a chosen s (e = s k - r d): s around (n-1)/2 in every 64-bit limb — equal to (n-1)/2 in all
+	// limbs but one, off by one in one limb — for the low-s rule; through every encoding and both malleability settings
+	{
+		var ss []*big.Int
+		for limb := uint(0); limb < 4; limb++ {
+			for _, k := range []int64{1, 2, 0x7fffffff} {
+				d := new(big.Int).Lsh(big.NewInt(k), 64*limb)
+				ss = append(ss, new(big.Int).Add(half, d), new(big.Int).Sub(half, d))
+			}
+		}
+		ss = append(ss, half, add(half, 1), add(bigN, -1), big.NewInt(1))
+		for i, sv := range ss {
+			if sv.Sign() <= 0 || sv.Cmp(bigN) >= 0 || (!c.thorough() && i%2 == 1 && i < 24) {
+				continue
+			}
+			d := add(randBig(rng, add(bigN, -1)), 1)
+			k := add(randBig(rng, add(bigN, -1)), 1)
+			R := mulG(k)
+			xb, _ := R.XBytes()
+			x := new(big.Int).SetBytes(xb)
+			r := new(big.Int).Mod(x, bigN)
+			if r.Sign() == 0 {
+				continue
+			}
+			e := new(big.Int).Mod(new(big.Int).Sub(new(big.Int).Mul(sv, k), new(big.Int).Mul(r, d)), bigN)
+			v := byte(R.IsYOdd())
+			if x.Cmp(bigN) >= 0 {
+				v |= 2
+			}
+			pub := privFrom(d).PublicKey()
+			raw(pub, be32(e)[:], r, sv)
+			allEnc(pub, be32(e)[:], r, sv, v)
+		}
+	}
+	// key objects imported from compressed bytes / from a SubjectPublicKeyInfo carrying a compressed point, used for verification
+	// BEFORE any of their accessors was called (the call comes first, the key's views are read for the log afterwards)
+	for i := 0; i < c.scale(4, 40); i++ {
+		priv := privFrom(add(randBig(rng, add(bigN, -1)), 1))
+		digest := randBytes(rng, 32)
+		r, sv, v, err := priv.SignRaw(&fixedReader{randBytes(rng, 32)}, digest)
+		if err != nil {
+			panic(err)
+		}
+		cm := priv.PublicKey().CompressedBytes()
+		alg := []byte{0x30, 0x10, 0x06, 0x07, 0x2a, 0x86, 0x48, 0xce, 0x3d, 0x02, 0x01, 0x06, 0x05, 0x2b, 0x81, 0x04, 0x00, 0x0a}
+		body := append(append(append([]byte{}, alg...), 0x03, byte(len(cm)+1), 0), cm...)
+		spki := append([]byte{0x30, byte(len(body))}, body...)
+		for _, e := range []secec.SignatureEncoding{secec.EncodingCompactRecoverable, secec.EncodingASN1, secec.EncodingCompact} {
+			for _, mk := range []func() (*secec.PublicKey, error){
+				func() (*secec.PublicKey, error) { return secec.NewPublicKey(cm) },
+				func() (*secec.PublicKey, error) { return secec.ParseASN1PublicKey(spki) },
+				func() (*secec.PublicKey, error) { return secec.NewPublicKeyFromPoint(priv.PublicKey().Point()) },
+			} {
+				q, kerr := mk()
+				if kerr != nil {
+					c.E("lib.Unexpected", "what", "a valid public key was rejected: "+kerr.Error(), "in", hx(cm))
+					continue
+				}
+				var sig []byte
+				switch e {
+				case secec.EncodingASN1:
+					sig = secec.BuildASN1Signature(r, sv)
+				case secec.EncodingCompact:
+					sig = secec.BuildCompactSignature(r, sv)
+				default:
+					sig = secec.BuildCompactRecoverableSignature(r, sv, v)
+				}
+				enc(q, digest, sig, &secec.ECDSAOptions{Encoding: e})
+			}
 		}
 	}
 	// constructed near misses: the point R = u1 G + u2 Q is FIXED by (u1, u2) whatever r is (s = r/u2, e = u1 s), so r can be set
@@ -525,7 +634,8 @@ func driveSign(c *ctx) {
 	var cases []optcase
 	cases = append(cases, optcase{"nil", 0, 0})
 	for _, h := range []crypto.Hash{0, crypto.SHA256, crypto.SHA512, crypto.SHA384, crypto.SHA1} {
-		for _, e := range []secec.SignatureEncoding{secec.EncodingASN1, secec.EncodingCompact, secec.EncodingCompactRecoverable, secec.SignatureEncoding(9)} {
+		for _, e := range []secec.SignatureEncoding{secec.EncodingASN1, secec.EncodingCompact, secec.EncodingCompactRecoverable, secec.SignatureEncoding(9),
+			secec.SignatureEncoding(-1), secec.SignatureEncoding(3), secec.SignatureEncoding(-1 << 31), secec.SignatureEncoding(1 << 30)} {
 			cases = append(cases, optcase{"ecdsa", h, e})
 		}
 	}
@@ -566,6 +676,14 @@ func driveSign(c *ctx) {
 				sigSV, errSV := sign(true)
 				c.E("sig.Enc", "d", h32(d), "digest", hx(dg), "optkind", oc.kind, "hash", hsize, "enc", encName(oc.enc),
 					"ok", err == nil, "sig", sigHex, "ok_sv", errSV == nil, "sig_sv", hx(sigSV))
+				// what was just signed verifies under the signer's key as a verifier would hold it: imported from compressed bytes, no
+				// accessor of the imported object called before Verify
+				if err == nil && oc.kind == "ecdsa" && oc.enc >= secec.EncodingASN1 && oc.enc <= secec.EncodingCompactRecoverable && hsize == len(dg) {
+					if q, kerr := secec.NewPublicKey(priv.PublicKey().CompressedBytes()); kerr == nil {
+						out := q.Verify(dg, sig, &secec.ECDSAOptions{Hash: oc.hash, Encoding: oc.enc, RejectMalleable: true})
+						c.E("vfy.Enc", "q", hx(q.Bytes()), "digest", hx(dg), "sig", hx(sig), "hasopts", true, "hash", hsize, "enc", encName(oc.enc), "rejmal", true, "out", out)
+					}
+				}
 				// signatures handed out earlier (other keys, digests, encodings) are the caller's: later signing never changes them
 				for _, k := range kept {
 					c.E("sig.Stable", "then", k.then, "now", hx(k.sig), "later_enc", encName(oc.enc))
@@ -652,6 +770,30 @@ func driveRecover(c *ctx) {
 	// r or s zero
 	allV(randBytes(rng, 32), big.NewInt(0), big.NewInt(5), false, "", false)
 	allV(randBytes(rng, 32), big.NewInt(5), big.NewInt(0), false, "", false)
+	// u2 = s/r steered to the corners of the variable-base multiply (extreme split halves, rounding-bit flips, limb carries): honest
+	// (r, v) from R = kG, s = u2 r, a random digest; the recovered key is decided by the specification
+	for i, u2 := range steeredScalars(rng, 0) {
+		if u2.Sign() == 0 || (!c.thorough() && i%3 != int(c.seed%3)) {
+			continue
+		}
+		k := add(randBig(rng, add(bigN, -1)), 1)
+		R := mulG(k)
+		xb, _ := R.XBytes()
+		x := new(big.Int).SetBytes(xb)
+		r := new(big.Int).Mod(x, bigN)
+		if r.Sign() == 0 {
+			continue
+		}
+		sv := new(big.Int).Mod(new(big.Int).Mul(u2, r), bigN)
+		if sv.Sign() == 0 {
+			continue
+		}
+		v := int(R.IsYOdd())
+		if x.Cmp(bigN) >= 0 {
+			v |= 2
+		}
+		rec(randBytes(rng, 32), r, sv, v, false, "")
+	}
 	// the recovery id as it travels on the wire (r || s || v): the byte is taken verbatim — ids that agree with the genuine one
 	// modulo 4 (v|4, v|0x80, v+252 ...) or in other bit fields are NOT the genuine id.  Through the parser followed by recovery,
 	// and through Verify with the recoverable encoding.
@@ -775,6 +917,67 @@ func driveKeys(c *ctx) {
 		}
 		pub(append([]byte{2}, be32(xt)[:]...), true)
 		pub(append(append([]byte{4}, be32(xt)[:]...), be32(randBig(rng, bigP))[:]...), true)
+	}
+	// near-curve points aimed at the comparison the curve check makes: y^2 and x^3 + 7 agree in every 64-bit limb of their internal
+	// (Montgomery, R = 2^256) form but ONE, in one bit.  Off the curve; must be refused by every constructor.
+	{
+		rinv := new(big.Int).ModInverse(new(big.Int).Mod(big2_256, bigP), bigP)
+		for limb := uint(0); limb < 4; limb++ {
+			found := 0
+			for tries := 0; tries < 400 && found < c.scale(2, 8); tries++ {
+				x := randBig(rng, bigP)
+				tm := new(big.Int).Mod(new(big.Int).Mul(yyOf(x), big2_256), bigP) // Montgomery form of x^3 + 7
+				tm2 := new(big.Int).Xor(tm, pow2(64*limb+uint(rng.Intn(64))))
+				if tm2.Cmp(bigP) >= 0 {
+					continue
+				}
+				y := sqrtP(new(big.Int).Mod(new(big.Int).Mul(tm2, rinv), bigP))
+				if y == nil {
+					continue
+				}
+				found++
+				pub(encUnc(xy{x, y}), true)
+				// ... and through a Point: coordinates, then NewPublicKeyFromPoint if a Point came out
+				if pt, err := secp256k1.NewPointFromCoords(be32(x), be32(y)); err == nil {
+					k, kerr := secec.NewPublicKeyFromPoint(pt)
+					u := ""
+					if kerr == nil {
+						u = hx(k.Bytes())
+					}
+					c.E("lib.Unexpected", "what", "NewPointFromCoords accepted a point off the curve", "x", h32(x), "y", h32(y), "key", u)
+				}
+			}
+		}
+	}
+	// a rejected decode into a Point that already holds a valid point leaves it alone; a key built from that Point afterwards is
+	// the key of the ORIGINAL point
+	for i := 0; i < c.scale(4, 30); i++ {
+		d := add(randBig(rng, add(bigN, -1)), 1)
+		pt := mulG(d)
+		if i%2 == 0 {
+			pt = secp256k1.NewGeneratorPoint()
+			d = big.NewInt(1)
+		}
+		good := mulG(add(randBig(rng, add(bigN, -1)), 1)).UncompressedBytes()
+		bad := append([]byte{}, good...)
+		switch i % 3 {
+		case 0:
+			bad[64] ^= 1 // off the curve
+		case 1:
+			for j := 33; j < 65; j++ { // y = 2^256 - 1: not below p
+				bad[j] = 0xff
+			}
+		default:
+			bad[0] = 6 + good[64]&1 // hybrid
+		}
+		_, derr := pt.SetBytes(bad)
+		_, derr2 := pt.SetUncompressedBytes(bad)
+		k, kerr := secec.NewPublicKeyFromPoint(pt)
+		u, cm := "", ""
+		if kerr == nil {
+			u, cm = hx(k.Bytes()), hx(k.CompressedBytes())
+		}
+		c.E("key.AfterRejectedDecode", "d", h32(d), "rejected", derr != nil && derr2 != nil, "ok", kerr == nil, "unc", u, "cmp", cm)
 	}
 	for _, p := range curvePointsWithSmallY(rng, 4) { // y + p still fits 32 bytes: a non-canonical alias of a real point
 		pub(encUnc(p), false)
